@@ -339,6 +339,8 @@ def main(argv=None) -> int:
     # -------------------------------------------------- minimise, classify, report ----
     known_lines: list[str] = []
     seen_known: set[str] = set()
+    minimised = 0
+    MAX_MINIMISED = 4  # further buckets are reported with their smallest recorded case
     for bucket in sorted(total.failures):
         f = total.failures[bucket]
         kf = match_known(known, bucket)
@@ -350,7 +352,8 @@ def main(argv=None) -> int:
         if any(v[0] == bucket for v in violations):
             continue
         try:
-            if hasattr(mod, "minimise"):
+            if hasattr(mod, "minimise") and minimised < MAX_MINIMISED:
+                minimised += 1
                 f = mod.minimise(bucket, f)
         except Exception:  # noqa: BLE001 - keep the unminimised replay
             traceback.print_exc()
